@@ -8,12 +8,14 @@ from common import enc
 from framework import Result
 
 ID = 'C03'
-LEAN_TARGETS = ['TexSoupProofs.Properties.C03']
+LEAN_TARGETS = ['TexSoupProofs.Properties.C03', 'TexSoupProofs.Properties.C03C04Parsed']
 THEOREMS = ['TexSoup.C03.' + n for n in (
     'findAll_spec', 'findAll_root', 'match_plain', 'plainName_necessary', 'occ_spec', 'findAll_name_occ',
     'findAll_name_occ_root', 'findAll_name_order', 'findAll_name_filter', 'find_eq_head', 'count_eq_length',
     'getattr_eq_find', 'findAll_names_union', 'findAll_names_order', 'findAll_absent', "findAll_absent'",
-    'findAll_fullexpr', 'findAll_fullexpr_cmd')]
+    'findAll_fullexpr', 'findAll_fullexpr_cmd', 'findAll_name_occ_parsed', 'findAll_name_occ_root_parsed',
+    'findAll_name_order_parsed', 'findAll_name_order_root_parsed', 'findAll_absent_parsed',
+    'findAll_absent_root_parsed')] + ['TexSoup.parse_flatArgs']
 PARTIAL = []
 TRUSTED = ['hand-written model of find_all/__match__/descendants (lean/TexSoupModel/Nav.lean) and of the reader, tied '
            'to the code by the correspondence run only',
